@@ -539,8 +539,8 @@ class C09(Check):
         "vectors not accepted by the SUMMARY parser or absent from the evaluator table (WLIR, GLIT, V-history, "
         "GOITH, G/F WGR/OGR, FLIR/FLIT ...) are not requested",
     ]
-    EXAMPLES = {"quick": 120, "thorough": 2000}      # per shard (16 shards); ~0.15-0.3 s per case
-    MIN_EVALS = {"quick": 1000, "thorough": 12000}
+    EXAMPLES = {"quick": 80, "thorough": 1500}       # per shard (16 shards); ~0.16 s per case on a free core
+    MIN_EVALS = {"quick": 600, "thorough": 8000}
     TIME_CAP = {"quick": 170, "thorough": 1100}
     LEVEL_TEXT = ("Generated-model search with a reference accumulator: for each generated deck and simulator-result "
                   "history the expected value of ~700 vectors x up to ~20 evaluations is computed independently "
